@@ -1,4 +1,5 @@
 import SamplyModel.Lemmas.LibIdentity
+import SamplyModel.Lemmas.LibWalk
 /-!
 # C19 — a saved profile carries enough library identity for the server to symbolicate it
 
@@ -122,7 +123,7 @@ theorem C19_candidate (p : Profile) (hwf : ∀ l ∈ p.usedLibs, l.debugId.WF) (
   have hpath := fillIn_request (KnownLibs.ofValues vs) lib'.debugName lib'.debugId lib'.view hknown lib'.path rfl
   constructor
   · unfold candidatesForBinary; simp [hpath]
-  · unfold candidatesForDebugFile; simp [hpath]
+  · unfold candidatesForDebugFile debugCandsOf; simp [hpath]
 
 /-- The same without the distinctness assumption: the first candidate is the recorded path of a used library
 with the requested key. -/
@@ -148,6 +149,200 @@ theorem C19_reader_walks_threads_and_processes (libs : List JObj) (threads : Lis
   cases ha : parseLibs libs <;> cases hb : parseLibs threads.flatten <;> cases hc : collectAll procs <;>
     simp [ha, hb, hc] at h
   exact ⟨_, _, _, rfl, rfl, rfl, by rw [List.append_assoc]; exact h.symm⟩
+
+/-- **The walk reaches every position** (stronger form of the unfolding lemma above). `allObjs` is the
+specification-side list of all library objects anywhere in the document; `PDoc.sub path` follows `processes[i]`
+for each index of `path`. If the reader accepts the document, what it collected is exactly the deserialization of
+`allObjs`, in document order; in particular every library object in the `libs` of a process reached by *any* path,
+or in the `libs` of any of that process's threads, has been collected. -/
+theorem C19_reader_collects_every_position (d : PDoc) (all : List JLib) (h : collect d = some all) :
+    parseLibs d.allObjs = some all ∧
+    ∀ (path : List Nat) (libs : List JObj) (threads : List (List JObj)) (procs : List PDoc),
+      PDoc.sub path d = some (.mk libs threads procs) →
+      ∀ o, (o ∈ libs ∨ ∃ t ∈ threads, o ∈ t) → ∃ l ∈ all, parseLib o = some l := by
+  have hall : parseLibs d.allObjs = some all := by rw [← collect_eq_parse_allObjs]; exact h
+  refine ⟨hall, ?_⟩
+  intro path libs threads procs hsub o ho
+  apply parseLibs_mem d.allObjs all hall o
+  apply sub_allObjs path d _ hsub o
+  simp only [PDoc.allObjs, List.mem_append, List.mem_flatten]
+  rcases ho with h1 | ⟨t, ht, hot⟩
+  · exact Or.inl (Or.inl h1)
+  · exact Or.inl (Or.inr ⟨t, ht, hot⟩)
+
+/-! ## improvement round: key names, the converter's identity, which candidate is used -/
+
+/-- **Key names agree.** For each of the seven keys the writer's string literal (library_info.rs:48-54) is what
+serde's `rename_all = "camelCase"` makes of the reader's field identifier (profile_json_preparse.rs:32-42); the
+reader's key matching accepts exactly that spelling (any other text is an unknown key, which is skipped). -/
+theorem C19_keys_agree (k : Key) :
+    camelCase k.readerField = k.writerText ∧ Key.ofText k.writerText = some k ∧
+    ∀ s, Key.ofText s = some k → s = k.writerText :=
+  ⟨camelCase_readerField k, ofText_writerText k, fun s h => ofText_eq_some s k h⟩
+
+/-- **Identity round trip over documents with textual keys.** The writer emits its own key literals, the reader
+resolves key text through its own renamed field names; nothing is shared between the two sides but the JSON
+object. The statement is that of `C19_roundtrip`. -/
+theorem C19_roundtrip_text (p : Profile) (hwf : ∀ l ∈ p.usedLibs, l.debugId.WF) (hd : KeysDistinct p.usedLibs)
+    (lib : LibInfo) (hmem : lib ∈ p.usedLibs) :
+    ∃ m e, preparseText (serializeProfileText p) = some m ∧ m.find? (lib.debugName, lib.debugId) = some e ∧
+      e.debugName = some lib.debugName ∧ e.debugId = some lib.debugId ∧ e.path = some lib.path ∧
+      e.debugPath = some lib.debugPath ∧ e.name = some lib.name ∧ e.arch = lib.arch ∧
+      (lib.codeId = none → e.codeId = none) ∧
+      (∀ c, lib.codeId = some c.toStr → CodeIdRoundTrips c → e.codeId = some c) := by
+  unfold preparseText
+  rw [resolve_serializeProfileText]
+  exact C19_roundtrip p hwf hd lib hmem
+
+/-- **The converter records the identity of the file it opened** (converter.rs:1416-1465, 1597-1613). Whatever
+build id the recording carries for the mapping, a library that is added for a file found at `path` has the debug
+id and the code id *of that file* and `path` as both paths; and it is added only if the recording names no build
+id or exactly the file's. -/
+theorem C19_convert_keeps_file_identity (path : Str) (fileId : Option (List Nat)) (textHash : List Nat)
+    (recId : Option (List Nat)) (lib : LibInfo) (h : convertMapping path (.elf fileId textHash) recId = some lib) :
+    lib.debugId = fileDebugId fileId textHash ∧ lib.codeId = fileId.map elfCodeText ∧
+    lib.path = path ∧ lib.debugPath = path ∧ lib.name = basename path ∧ lib.debugName = basename path ∧
+    lib.arch = none ∧ (∀ e, recId = some e → fileId = some e) := by
+  unfold convertMapping at h
+  cases recId with
+  | none =>
+    simp at h; subst h
+    exact ⟨rfl, rfl, rfl, rfl, rfl, rfl, rfl, by simp⟩
+  | some e =>
+    cases fileId with
+    | none => simp [codeIdMatches] at h
+    | some f =>
+      by_cases hfe : f = e
+      · subst hfe; simp [codeIdMatches] at h; subst h
+        exact ⟨rfl, rfl, rfl, rfl, rfl, rfl, rfl, by simp⟩
+      · simp [codeIdMatches, hfe] at h
+
+/-- … and a file whose build id is not the one the recording names (no note at all, or a note that differs in any
+byte, e.g. only in bytes 17–20) is never listed under the recording's identity: the mapping is dropped. -/
+theorem C19_convert_drops_mismatch (path : Str) (fileId : Option (List Nat)) (textHash e : List Nat)
+    (hne : fileId ≠ some e) : convertMapping path (.elf fileId textHash) (some e) = none := by
+  unfold convertMapping
+  cases fileId with
+  | none => simp [codeIdMatches]
+  | some f =>
+    have : f ≠ e := fun h => hne (by rw [h])
+    simp [codeIdMatches, this]
+
+/-- A mapping whose file was not accessible at import time is listed under the identity of the recording
+(converter.rs:1547-1562); that identity is the one the converter computes from a little-endian file with that
+build id, so the library is found once the file is there. -/
+theorem C19_convert_absent_agrees_with_file (path : Str) (b textHash : List Nat) :
+    convertMapping path .absent (some b) = convertMapping path (.elf (some b) textHash) (some b) ∧
+    convertMapping path .absent (some b) = convertMapping path (.elf (some b) textHash) none := by
+  simp [convertMapping, codeIdMatches, fileDebugId]
+
+/-- Every library the converter lists has a representable debug id (hypothesis `hwf` of the round-trip theorems),
+provided build ids and text hashes are byte strings. -/
+theorem C19_convert_wf (path : Str) (file : MappedFile) (recId : Option (List Nat)) (lib : LibInfo)
+    (hfile : ∀ f th, file = .elf f th → (∀ b, f = some b → IsBytes b) ∧ IsBytes th)
+    (hrec : ∀ b, recId = some b → IsBytes b)
+    (h : convertMapping path file recId = some lib) : lib.debugId.WF := by
+  cases file with
+  | absent =>
+    simp [convertMapping] at h; subst h
+    cases recId with
+    | none => exact ⟨by decide, by decide, by decide⟩
+    | some b => exact fromIdentifierLE_wf b (hrec b rfl)
+  | elf f th =>
+    have hid := (C19_convert_keeps_file_identity path f th recId lib h).1
+    rw [hid]
+    obtain ⟨hf, hth⟩ := hfile f th rfl
+    cases f with
+    | none => exact fromIdentifierLE_wf th hth
+    | some b => exact fromIdentifierLE_wf b (hf b rfl)
+
+/-- **Order of the debug-file candidates.** For a request that names a used library by `(debugName, debugId)`,
+the list `/symbolicate/v5` walks is exactly: the candidates computed from the recorded fields that come before
+the binary (`earlierDebugCands`: `<debugPath>.dbg` for `.so`, a `.pdb` debug path, `parent(path)/debugName` when
+`name ≠ debugName`, `/usr/lib/debug/.build-id/xx/….debug`, the local Breakpad file), then the binary at the
+recorded `path`, then the vdso special case. For every registration order. -/
+theorem C19_debug_candidates_order (p : Profile) (hwf : ∀ l ∈ p.usedLibs, l.debugId.WF)
+    (hd : KeysDistinct p.usedLibs) (lib : LibInfo) (hmem : lib ∈ p.usedLibs) (m : LibMap)
+    (hm : preparse (serializeProfile p) = some m) (vs : List RLib) (hperm : vs.Perm (m.map (·.2))) :
+    candidatesForDebugFile (KnownLibs.ofValues vs) (requestFor lib.debugName lib.debugId) =
+      earlierDebugCands lib.view ++ [Cand.localFile lib.path]
+        ++ (if lib.name = [91, 118, 100, 115, 111, 93] then [Cand.vdso] else []) := by
+  obtain ⟨m', hpre, hinv, lib', _, _, hfind, heq⟩ := C19_roundtrip_anykeys p hwf lib hmem
+  have := heq hd; subst this
+  rw [hm] at hpre; have := Option.some.inj hpre; subst this
+  have hknown := known_of_map m hinv vs hperm lib'.key lib'.view hfind
+  rw [candidatesForDebugFile_known _ lib' hknown]
+  simp [debugCandsOf, LibInfo.view]
+
+/-- **Which file answers.** The symbolication uses the first candidate that is there and has the requested debug
+id. If the file at the recorded `path` still has the recorded debug id, the request is always answered from a
+source with that debug id, and that source is the recorded binary unless an *earlier* candidate with the very
+same debug id exists (a separate debug file of that binary); with no such earlier candidate it is the recorded
+binary. -/
+theorem C19_symbolicate_uses_recorded_binary (p : Profile) (hwf : ∀ l ∈ p.usedLibs, l.debugId.WF)
+    (hd : KeysDistinct p.usedLibs) (lib : LibInfo) (hmem : lib ∈ p.usedLibs) (m : LibMap)
+    (hm : preparse (serializeProfile p) = some m) (vs : List RLib) (hperm : vs.Perm (m.map (·.2)))
+    (fs : FsView) (hfs : fs (Cand.localFile lib.path) = some lib.debugId) :
+    (∃ c, firstAccepted fs lib.debugId
+            (candidatesForDebugFile (KnownLibs.ofValues vs) (requestFor lib.debugName lib.debugId)) = some c ∧
+          fs c = some lib.debugId ∧ (c = Cand.localFile lib.path ∨ c ∈ earlierDebugCands lib.view)) ∧
+    ((∀ c ∈ earlierDebugCands lib.view, fs c ≠ some lib.debugId) →
+      firstAccepted fs lib.debugId
+        (candidatesForDebugFile (KnownLibs.ofValues vs) (requestFor lib.debugName lib.debugId))
+        = some (Cand.localFile lib.path)) := by
+  rw [C19_debug_candidates_order p hwf hd lib hmem m hm vs hperm]
+  constructor
+  · exact firstAccepted_cases fs lib.debugId _ _ _ hfs
+  · intro hnone
+    rw [List.append_assoc, firstAccepted_append_of_none fs lib.debugId _ _ hnone]
+    simp [firstAccepted, hfs]
+
+/-- **From the recording to the answer.** A used library that the converter listed for a file it opened at
+`path` is symbolicated from that file, as long as the file is unchanged (it still has the debug id the converter
+computed) and no earlier candidate carries the same debug id — whatever build id the recording named. -/
+theorem C19_converted_lib_is_found (p : Profile) (hwf : ∀ l ∈ p.usedLibs, l.debugId.WF)
+    (hd : KeysDistinct p.usedLibs) (lib : LibInfo) (hmem : lib ∈ p.usedLibs)
+    (path : Str) (fileId : Option (List Nat)) (textHash : List Nat) (recId : Option (List Nat))
+    (hconv : convertMapping path (.elf fileId textHash) recId = some lib)
+    (m : LibMap) (hm : preparse (serializeProfile p) = some m) (vs : List RLib) (hperm : vs.Perm (m.map (·.2)))
+    (fs : FsView) (hfs : fs (Cand.localFile path) = some (fileDebugId fileId textHash))
+    (hearlier : ∀ c ∈ earlierDebugCands lib.view, fs c ≠ some lib.debugId) :
+    firstAccepted fs lib.debugId
+      (candidatesForDebugFile (KnownLibs.ofValues vs) (requestFor lib.debugName lib.debugId))
+      = some (Cand.localFile path) := by
+  obtain ⟨hid, _, hpath, _⟩ := C19_convert_keeps_file_identity path fileId textHash recId lib hconv
+  have hfs' : fs (Cand.localFile lib.path) = some lib.debugId := by rw [hpath, hid]; exact hfs
+  have := (C19_symbolicate_uses_recorded_binary p hwf hd lib hmem m hm vs hperm fs hfs').2 hearlier
+  rw [hpath] at this; exact this
+
+/-- For a library as the converter lists it (`name = debugName`, `debugPath = path`) the earlier candidates are:
+`<path>.dbg` when the path ends in `.so`, the path itself when it ends in `.pdb`, the build-id debug file when
+the recorded code id reads back as an ELF build id of more than one byte, and the local Breakpad file. -/
+theorem C19_converted_lib_earlier_candidates (path : Str) (file : MappedFile) (recId : Option (List Nat))
+    (lib : LibInfo) (h : convertMapping path file recId = some lib) :
+    earlierDebugCands lib.view =
+      (if endsWith path [46, 115, 111] then [Cand.localFile (path ++ [46, 100, 98, 103])] else [])
+      ++ (if endsWith path [46, 112, 100, 98] then [Cand.localFile path] else [])
+      ++ (match lib.view.codeId with
+          | some (.elf b) =>
+            if (hexLower b).length > 2 then
+              [Cand.localFile ("/usr/lib/debug/.build-id/".toUTF8.toList.map (·.toNat) ++ (hexLower b).take 2 ++ [47]
+                ++ (hexLower b).drop 2 ++ ".debug".toUTF8.toList.map (·.toNat))]
+            else []
+          | _ => [])
+      ++ [Cand.breakpad (basename path) lib.debugId.toBreakpad] := by
+  have hfields : lib.name = basename path ∧ lib.debugName = basename path ∧ lib.path = path ∧ lib.debugPath = path := by
+    cases file with
+    | absent => simp [convertMapping] at h; subst h; exact ⟨rfl, rfl, rfl, rfl⟩
+    | elf f th =>
+      obtain ⟨_, _, h3, h4, h5, h6, _⟩ := C19_convert_keeps_file_identity path f th recId lib h
+      exact ⟨h5, h6, h3, h4⟩
+  obtain ⟨h1, h2, h3, h4⟩ := hfields
+  unfold earlierDebugCands
+  simp only [LibInfo.view, h1, h2, h3, h4]
+  cases hc : lib.codeId.bind CodeId.fromStr with
+  | none => simp
+  | some c => cases c <;> simp
 
 /-! ## non-vacuity: the hypotheses are satisfiable by non-trivial inputs, the excluded points are real -/
 
@@ -177,3 +372,22 @@ example : (DebugId.uuid (List.replicate 16 0xAB) 0x1f).toBreakpad
   have h : toHexLower 0x1f = [49, 102] := by
     rw [toHexLower, if_neg (by decide), toHexLower, if_pos (by decide)]; decide
   simp only [DebugId.toBreakpad, h]; decide
+
+/-- a writer that spelled the key `breakpadID` would not be understood: the reader skips the unknown key -/
+example : resolveObj [([98, 114, 101, 97, 107, 112, 97, 100, 73, 68], JVal.str [48])] = [] := by decide
+/-- … whereas the real spelling resolves -/
+example : resolveObj [([98, 114, 101, 97, 107, 112, 97, 100, 73, 100], JVal.str [48])] = [(Key.breakpadId, JVal.str [48])] := by
+  decide
+/-- a recording whose MMAP2 build id differs from the file's note only in byte 20: dropped -/
+example : convertMapping [47, 97] (.elf (some (List.replicate 19 1 ++ [2])) []) (some (List.replicate 20 1)) = none := by
+  decide
+/-- the same ids: listed, under the file's identity -/
+example : (convertMapping [47, 97] (.elf (some (List.replicate 20 1)) []) (some (List.replicate 20 1))).map (·.codeId)
+    = some (some (elfCodeText (List.replicate 20 1))) := by decide
+/-- a stale `<path>.dbg` with another debug id is skipped, the binary answers -/
+example : firstAccepted (fun c => if c = Cand.localFile [1] then some (DebugId.uuid [] 1) else some (DebugId.uuid [] 2))
+    (DebugId.uuid [] 2) [Cand.localFile [1], Cand.localFile [2]] = some (Cand.localFile [2]) := by decide
+
+/-- a library object three levels down (`processes[1].processes[0].threads[1].libs`) is reached -/
+example : PDoc.sub [1, 0] (.mk [] [] [.mk [] [] [], .mk [] [] [.mk [] [[], [[(Key.name, JVal.null)]]] []]])
+    = some (.mk [] [[], [[(Key.name, JVal.null)]]] []) := by simp [PDoc.sub]
